@@ -7,6 +7,7 @@ import (
 	"strings"
 	"unsafe"
 
+	"github.com/corazawaf/coraza/v3/internal/corazawaf"
 	"github.com/corazawaf/coraza/v3/types"
 	"github.com/corazawaf/coraza/v3/verifrt"
 )
@@ -51,6 +52,10 @@ func runTx(h *wafHandle, s *TxScript) *Outcome {
 	if p := safely(func() { tx = h.WAF.NewTransactionWithID(s.ID) }); p != "" {
 		out.Panic, out.PanicStep = p, "NewTransaction"
 		return out
+	}
+	var rec *recWriter
+	if itx, ok := tx.(*corazawaf.Transaction); ok && itx.WAF != nil {
+		rec, _ = itx.WAF.AuditLogWriter().(*recWriter)
 	}
 	if h.Concurrent {
 		// pool exclusivity: the object must not be live in another task
@@ -186,15 +191,17 @@ func runTx(h *wafHandle, s *TxScript) *Outcome {
 		b, err := io.ReadAll(held)
 		out.HeldReader = fmt.Sprintf("%q err=%v", b, err != nil)
 	}
-	if h.Concurrent {
-		return out
+	if !h.Concurrent {
+		for _, c := range h.ErrCB[cbBefore:] {
+			out.ErrCB = append(out.ErrCB, c.RuleID)
+		}
+		out.DebugErrors = strings.Count(h.DebugBuf.String()[dbgBefore:], "\n")
 	}
-	for _, c := range h.ErrCB[cbBefore:] {
-		out.ErrCB = append(out.ErrCB, c.RuleID)
-	}
-	out.DebugErrors = strings.Count(h.DebugBuf.String()[dbgBefore:], "\n")
-	if h.Rec != nil {
-		for _, r := range h.Rec.Records {
+	if rec != nil {
+		if !h.Concurrent {
+			h.Rec = rec
+		}
+		for _, r := range rec.Records {
 			if r.ID == s.ID {
 				ids := append([]int(nil), r.RuleIDs...)
 				sort.Ints(ids)
